@@ -7,6 +7,8 @@ Direct oracle (O), on the real classes only:
   * `decode(encode(v))` gives an equal value (F4: equal after rounding to binary32) and returns exactly the position after the item;
   * the same when the decoding object already holds another value (as `List.decode` / a reused function object do), several times in a row;
   * every value `set()` accepts — whatever the model says about it — has an E5 encoding, is encoded to it and decodes back;
+  * a value given as CONSTRUCTOR argument (every leaf class, Dynamic, ANYVALUE, every data item class, Array, List; zero / empty
+    values in particular) gives the same object as construction followed by `set()`, and is held and encoded;
   * `set()` replaces: a second `set()` (also field-wise through item / attribute assignment on a List, also with an empty array) leaves
     exactly the second value; a Dynamic / ANYVALUE / data item given two plain values of different kinds ends like a fresh object;
   * `encode_item_header` is format byte + minimal big-endian length bytes for every length 0..0xFFFFFF and refuses the rest.
@@ -256,6 +258,67 @@ def dynamic_makers():
     return out
 
 
+def oracle_ctor_path(res, s, v):
+    """the value handed to the CONSTRUCTOR (of a leaf, Dynamic, ANYVALUE, Array, List) is held and encoded, empty / zero values included"""
+    case = {"kind": "ctorpath", "struct": js(s), "val": js(v)}
+    try:
+        ref = K.fresh_var(s)
+        ref.set(K.plain_for(s, v))
+    except Exception:  # noqa: BLE001
+        return          # not settable this way
+    try:
+        obj = K.ctor_var(s, K.plain_for(s, v))
+        held = K.val_of_var(obj)
+        enc = obj.encode()
+    except Exception as exc:  # noqa: BLE001
+        res.violate("ctor-drops-value", f"an object built with the value as constructor argument cannot be read / encoded: {type(exc).__name__}: {exc}", case)
+        return
+    if held != v or enc != K.own_encode(v):
+        res.violate("ctor-drops-value", "an object built with the value as constructor argument does not hold / encode it", case,
+                    K.show_val(v)[:200], K.show_any(held)[:200])
+
+
+FALSY = [("int", 0), ("float", 0), ("float", 0x8000000000000000), ("bool", 0), ("str", []), ("bytes", []), ("list", []), ("ba", []), ("tuple", [])]
+
+
+def ctor_makers():
+    """(label, constructor taking the value, the same object built empty) for Dynamic-like classes and every leaf class"""
+    import secsgem.secs.data_items as D
+    from secsgem.secs.variables.dynamic import ANYVALUE
+    out = [("ANYVALUE", ANYVALUE), ("Dynamic([U1,U2])", lambda *a: V.Dynamic([V.U1, V.U2], *a)), ("Dynamic([])", lambda *a: V.Dynamic([], *a)),
+           ("Dynamic([Boolean,U1,F4,String,Binary])", lambda *a: V.Dynamic([V.Boolean, V.U1, V.F4, V.String, V.Binary], *a)),
+           ("Dynamic([String,Binary],count=3)", lambda *a: V.Dynamic([V.String, V.Binary], *(a or (None,)), 3))]
+    for name in dir(D):
+        c = getattr(D, name)
+        if isinstance(c, type) and issubclass(c, D.DataItemBase) and c is not D.DataItemBase:
+            out.append((name, c))
+    for t, c in K.VARCLS.items():
+        out.append((t, c))
+    return out
+
+
+def oracle_ctor_plain(res, label, mk, p):
+    """`C(p)` ends exactly like `c = C(); c.set(p)` — type, value, bytes (or the same kind of refusal)"""
+    case = {"kind": "ctorplain", "obj": label, "py": js(p)}
+
+    def outcome(build):
+        try:
+            o = build()
+            return "ok " + K.show_obj(o) + " " + o.encode().hex()
+        except Exception as exc:  # noqa: BLE001
+            return "err " + hlib.errkind(exc)
+
+    def via_set():
+        o = mk()
+        o.set(K.py_real(p))
+        return o
+    a, b = outcome(via_set), outcome(lambda: mk(K.py_real(p)))
+    if p == ("none",) or (a.startswith("err") and b.startswith("err")):
+        return
+    if a != b:
+        res.violate("ctor-drops-value", f"{label}({K.show_py(p)}) differs from {label}() followed by set({K.show_py(p)})", case, a[:200], b[:200])
+
+
 def oracle_accepted(res, t, count, p):
     """the property on ANY value the implementation accepts: T(count).set(p) succeeded -> the held value has an E5 encoding,
     encode() is that encoding, and it decodes back to the held value at the right position"""
@@ -325,6 +388,12 @@ def replay_case(res, case):
         oracle_reuse(res, unjs(case["struct"]), unjs(case["start"]) if case["start"] is not None else None, [unjs(x) for x in case["seq"]])
     elif k == "accepted":
         oracle_accepted(res, case["type"], case["count"], unjs_py(case["py"]))
+    elif k == "ctorpath":
+        oracle_ctor_path(res, unjs(case["struct"]), unjs(case["val"]))
+    elif k == "ctorplain":
+        mk = dict(ctor_makers()).get(case["obj"])
+        if mk is not None:
+            oracle_ctor_plain(res, case["obj"], mk, unjs_py(case["py"]))
     elif k == "settwice":
         oracle_set_twice(res, unjs(case["struct"]), unjs(case["v1"]), unjs(case["v2"]))
     elif k == "dynseq":
@@ -555,6 +624,10 @@ def main():
     vals.append(("J", sorted(set(K.gen_elems(hlib.Rng(5), "J", 4000)))))
     for n in (255, 256):                                 # list length-byte boundary
         vals.append(("L", [("U1", [i % 256]) for i in range(n)]))
+    for cps in K.NUL_TEXTS:                               # text ending in / made of NUL characters
+        vals.append(("A", cps))
+        vals.append(("J", cps))
+    vals.append(("L", [("A", [65, 0, 0]), ("U1", [1]), ("J", [0])]))
     vals.append(K.deep_val(rng, 6))
     vals.append(K.deep_val(rng, 40, "A"))
     vals.append(("L", [("L", []), ("L", [("L", [])]), ("B", []), ("L", [("A", [65]), ("L", [("U2", [1, 2]), ("F4", [0x3FF0000000000000])])])]))
@@ -607,6 +680,8 @@ def main():
                 oracle_reuse(res, s, None, [v, empty_of(v), v])          # decode several times in a row into one object
             res.evaluations += 2
             if not K.has_list_under_dyn(s, v):
+                oracle_ctor_path(res, s, v)                              # the value as constructor argument
+                oracle_ctor_path(res, s, empty_of(v))
                 w = reshape(rng, s, v)
                 oracle_set_twice(res, s, v, w)                           # set() twice on one object, also field by field
                 oracle_set_twice(res, s, w, v)
@@ -772,6 +847,13 @@ def main():
         oracle_set(res, "F4", [b])
     for b in [K.DBL_MAX64, K.SIGN | K.DBL_MAX64, 1, 0x0010000000000000]:
         oracle_set(res, "F8", [b])
+
+    # plain values (the falsy ones in particular) as CONSTRUCTOR argument of every leaf class, Dynamic, ANYVALUE and every data item class
+    for label, mk in ctor_makers():
+        for p in FALSY + (PLAIN_SEQ if big else [rng.choice(PLAIN_SEQ), rng.choice(PLAIN_SEQ)]):
+            oracle_ctor_plain(res, label, mk, p)
+            res.count(("ctorplain", label, K.show_py(p)))
+            res.bump("ctor_plain", p[0])
 
     # Dynamic objects given plain values of different kinds one after the other: like a fresh object each time
     for label, mk in dynamic_makers():
